@@ -321,15 +321,26 @@ func Sync(logger *log.Logger, oldVersion string, newVersion string, dryRun bool)
 				return fmt.Errorf("non-OK multirange request")
 			}
 
-			_, params, err := mime.ParseMediaType(resp.Header.Get("Content-Type"))
-			if err != nil {
+			defer resp.Body.Close()
+
+			mediaType, params, err := mime.ParseMediaType(resp.Header.Get("Content-Type"))
+			if err != nil || !strings.HasPrefix(mediaType, "multipart/") {
+				// a request for a single range is answered with a plain 206, not multipart/byteranges
+				if len(task.ranges) != 1 {
+					return fmt.Errorf("expected a multipart response for %d ranges", len(task.ranges))
+				}
+				chunkWriter := io.NewOffsetWriter(outfile, int64(newHeader.TileDataOffset+task.ranges[0].DstOffset))
+				_, err := io.Copy(io.MultiWriter(chunkWriter, bar), resp.Body)
 				return err
 			}
 
 			mr := multipart.NewReader(resp.Body, params["boundary"])
 
 			for _, r := range task.ranges {
-				part, _ := mr.NextPart()
+				part, err := mr.NextPart()
+				if err != nil {
+					return err
+				}
 				_ = part.Header.Get("Content-Range")
 				chunkWriter := io.NewOffsetWriter(outfile, int64(newHeader.TileDataOffset+r.DstOffset))
 				io.Copy(io.MultiWriter(chunkWriter, bar), part)
